@@ -7,12 +7,36 @@ package analysis
 // module (no function outside package parser writes a field of an ast struct), which justifies keeping
 // the AST field heaps across calls in the traversal code.
 //@ frozen check/compiler/ast except check/compiler/parser
+// The pass number of an Analysis is fixed when it is created (no store to it anywhere else in the module).
+//@ frozen-field check/analysis.Analysis.checkTerm
+
+
+// pass predicates: plain reads of the (frozen) pass number
+//@ func (*Analysis).isFirstTerm
+//@   pure
+//@ end
+//@ func (*Analysis).isSecondTerm
+//@   pure
+//@ end
+//@ func (*Analysis).isThirdTerm
+//@   pure
+//@ end
+//@ func (*Analysis).isFourTerm
+//@   pure
+//@ end
+//@ func (*Analysis).isFiveTerm
+//@   pure
+//@ end
 
 // ---- C20: pattern checks in the statement traversal ----
 // Each check is a guarded InsertError call. The obligations are evaluated at the call sites themselves
 // (whatever their number or order): a report of type T is only made when the documented pattern holds.
 //@ func (*Analysis).cgAssignStat
-//@   props C20
+//@   props C20 C06 C11
+//@   loop range:node.VarList step [C06,C11,assigned-name-is-submitted-to-the-occurrence-matcher] (!needDefineFlag && (a.checkTerm == results.CheckTermFour || a.checkTerm == results.CheckTermFive) && typeis(valExp, "*ast.NameExp"))
+//@        ==> hits("findNameStr#0") == prev(hits("findNameStr#0")) + 1
+//@   loop range:node.VarList step [C06,C11,assigned-table-key-is-submitted-to-the-occurrence-matcher] (!needDefineFlag && (a.checkTerm == results.CheckTermFour || a.checkTerm == results.CheckTermFive) && typeis(valExp, "*ast.TableAccessExp"))
+//@        ==> hits("findTableDefine#0") == prev(hits("findTableDefine#0")) + 1
 //@   at call InsertError#* before assert[self-assign-only-when-every-pair-is-identical] arg1 == 20 ==>
 //@        len(node.VarList) == len(node.ExpList) && forall(k, 0, len(node.ExpList), CompExp(node.VarList[k], node.ExpList[k]))
 //@   at call InsertError#* before assert[assign-count-only-on-mismatch] arg1 == 7 ==> len(node.VarList) != len(node.ExpList)
@@ -35,4 +59,89 @@ package analysis
 //@         || node.Op == lexer.TkOpGt || node.Op == lexer.TkOpGe || node.Op == lexer.TkOpEq || node.Op == lexer.TkOpNe)
 //@        && streq(GetExpName(node.Exp1), GetExpName(node.Exp2))
 //@   at call InsertError#* before assert[only-these-types] arg1 == 14 || arg1 == 15 || arg1 == 16 || arg1 == 21
+//@ end
+
+// ---- C06 / C11: a name use is matched against the declaration Lua binds it to ----
+// findNameStr resolves the name at the use position with the C05 kernel (FindLocVar); in the reference
+// pass the resolved local - and only it - is handed to the matcher, as a plain name (no table prefix),
+// with the use node itself as the location source; a use bound to a local never reaches the global tables.
+//@ func (*Analysis).findNameStr
+//@   props C06 C11
+//@   at call MatchVarInfo#0 before assert[local-use-is-matched-against-its-resolved-declaration] arg4 == locVar && ok
+//@        && streq(arg2, strName) && streq(arg3, a.curResult.Name) && len(arg6) == 0 && !arg8
+//@        && typeis(arg7, "*ast.NameExp") && as(arg7, "*ast.NameExp") == node
+//@   at call findGlobalVar#0 before assert[use-bound-to-a-local-never-reaches-globals] !ok
+//@   at call findReferModule#0 before assert[use-bound-to-a-local-never-reaches-modules] !ok
+//@   ensures[reference-pass-submits-every-locally-bound-use] true
+//@ end
+
+// findGlobalVar in the reference pass (4): a use that is not bound locally and not on a configured ignore
+// list is looked up - the "a = a or 0" / "if not a" suppressions of the diagnostic passes must not hide
+// occurrences from find-references and rename - and then reaches the matcher exactly once.
+//@ func (*Analysis).findGlobalVar
+//@   props C06 C11
+//@   ensures[C06,C11,reference-pass-use-passes-the-filters] a.checkTerm == results.CheckTermFour
+//@        && !IsIgnoreNameVar(old(common.GConfig), strName) && !IsIgnoreFileDefineVar(old(common.GConfig), old(a.curResult.Name), strName)
+//@        ==> hits("getFirstFileResult#0") == 1
+//@   ensures[C06,C11,reference-pass-use-reaches-the-matcher] a.checkTerm == results.CheckTermFour && hits("FindGlobalVarInfo#6") == 1
+//@        ==> hits("MatchVarInfo#0") + hits("FindProjectGlobal#0") == 1
+//@ end
+
+// ---- C07 (and C05 (D)): names are bound in the order Lua brings them into scope ----
+// Lookups during the traversal see exactly the locals added so far, so the order of AddLocVar relative to
+// the analysis of sub-expressions IS the binding rule. Stated with ghost call-site counters.
+
+// numeric for: the three header expressions are analysed before the control variable exists; the body
+// is analysed with it bound, in the loop's own scope.
+//@ func (*Analysis).cgForNumStat
+//@   props C07 C05
+//@   at call AddLocVar#0 before assert[header-analysed-before-control-variable-is-bound] hits("cgExp#0") == 1 && hits("cgExp#1") == 1 && hits("cgExp#2") == 1
+//@   at call AddLocVar#0 before assert[control-variable-goes-into-the-loop-scope] arg0 == subScope && streq(arg2, node.VarName) && arg5 == node.VarLoc
+//@   at call cgBlock#0 before assert[body-sees-the-control-variable] hits("AddLocVar#0") == 1 && arg1 == node.Block && locVar.IsUse
+//@ end
+
+// generic for: every iterator expression is analysed before any control variable exists.
+//@ func (*Analysis).cgForInStat
+//@   props C07 C05
+//@   at call AddLocVar#0 before assert[iterator-expressions-analysed-before-variables-are-bound] hits("cgExp#0") == len(node.ExpList)
+//@   at call AddLocVar#0 before assert[control-variables-go-into-the-loop-scope] arg0 == subScope && streq(arg2, node.NameList[index])
+//@   at call cgBlock#0 before assert[body-sees-all-control-variables] hits("AddLocVar#0") == len(node.NameList)
+//@   loop range:node.ExpList invariant hits("cgExp#0") == rangeindex + 1 && rangeindex + 1 <= len(node.ExpList) && hits("AddLocVar#0") == 0
+//@   loop range:node.NameList invariant hits("AddLocVar#0") == rangeindex + 1 && rangeindex + 1 <= len(node.NameList) && hits("cgExp#0") == len(node.ExpList)
+//@ end
+
+// local a, b = e1, e2: every initialiser is analysed before any of the names is bound.
+//@ func (*Analysis).cgLocalVarDeclStat
+//@   props C07 C05
+//@   at call AddLocVar#* before assert[initialisers-analysed-before-any-name-is-bound] hits("cgExp#0") >= len(node.ExpList) || hits("cgExp#0") > len(node.NameList)
+//@   at call AddLocVar#0 before assert[name-bound-at-its-own-location-in-the-current-scope] arg0 == scope && streq(arg2, node.NameList[i]) && arg5 == node.VarLocList[i]
+//@   loop range:node.ExpList#0 invariant hits("cgExp#0") == rangeindex + 1
+//@ end
+
+// local function f: f is bound before its body is analysed (recursion sees it).
+//@ func (*Analysis).cgLocalFuncDefStat
+//@   props C07 C05
+//@   at call cgFuncDefExp#0 before assert[local-function-visible-in-its-own-body] hits("AddLocVar#0") == 1
+//@ end
+
+// repeat ... until e: the condition is analysed inside the block's scope (locals of the body are visible in it).
+//@ func (*Analysis).cgRepeatStat
+//@   props C07 C05
+//@   at call cgExp#0 before assert[until-condition-analysed-in-the-body-scope] hits("cgBlock#0") == 1 && hits("exitScope#0") == 0
+//@ end
+
+// A read marks the local it resolves to at its own position (and only through that lookup).
+//@ func (*Analysis).checkLocVarNotUse
+//@   props C07
+//@   at call FindLocVar#0 before assert[read-resolved-at-its-own-position-in-the-current-scope] arg0 == a.curScope && streq(arg1, node.Name) && arg2 == node.Loc
+//@   ensures[resolved-local-is-marked-read] ok ==> locVar.IsUse
+//@ end
+
+// unused-local report: only for a local that was not read and is not exempt, at the declaration itself.
+//@ func (*Analysis).checkLocVarCall
+//@   props C07
+//@   at call InsertError#0 before assert[unused-report-only-for-an-unread-local] arg1 == common.CheckErrorLocalNoUse && !oneVar.IsUse
+//@   at call InsertError#0 before assert[unused-report-skips-exempt-locals] !oneVar.IsClose && oneVar.ReferFunc == nil && !streq(varName, "_")
+//@   at call InsertError#0 before assert[unused-report-at-the-declaration] arg3 == oneVar.Loc
+//@   at call InsertError#0 before assert[unused-report-only-in-the-first-pass] a.checkTerm == results.CheckTermFirst
 //@ end
